@@ -1,19 +1,17 @@
-(* C16 - per-case judge.
+(* C16 - per-case judge.  Baseline: /repo with the fixes e5fee55 (C16-1) and 8f6edb6 (C16-2); both
+   findings are "fixed", so a recurrence is a violation, never a known finding.
 
    Seq: one sequential history through a real proxy (harness/cmd/c16): client family, number of
    backends, the try list, the script of every backend (behaviour per accepted connection), the
    operations, and what was observed after the login and after every operation.
      - holds_P = Switch.history_ok on the OBSERVED history (the property's own predicates),
-     - the model is run twice: Switch.run true (specification) and Switch.run false (the code as it is,
-       finding 2: a raw Connect refused as InProgress/AlreadyConnected clears the in-flight slot);
-       the two only differ on histories in the trigger class [trigger2].
+     - the observation must equal Switch.impl_run (today's code, which is the specification).
 
    Con: one burst of concurrent Connect calls issued from a quiescent state (player on server 0,
    3 healthy backends), every call with its result and logical-clock interval, and the final
    observation.  Base/Lin.v searches and validates a linearization against the atomic specification
-   Switch.lin_step.  If there is none and two started calls overlapped in real time, the case is in
-   the trigger class of finding 1 (admission is not atomic: two attempts run at once; the outcome of
-   simultaneous attempts is not modelled further). *)
+   Switch.lin_step; a burst without one falsifies the property (two attempts at once, a refusal with a
+   side effect, or an inconsistent final state). *)
 From Coq Require Import List Arith Bool ZArith.
 From Verif Require Import Base.Verdict Base.Lin Model.Switch.
 Import ListNotations.
@@ -25,23 +23,10 @@ Inductive case :=
       (ops : list op) (observed : list obs)
 | Con (f : family) (calls : list req) (final : obs).
 
-(* finding 2 can only show in an ODuring whose inner requests contain a raw Connect followed by
-   another request *)
-Fixpoint raw_then_more (inner : list (bool * nat)) : bool :=
-  match inner with
-  | [] => false
-  | (ind, _) :: r => (negb ind && negb (match r with [] => true | _ => false end)) || raw_then_more r
-  end.
-Definition trigger2 (ops : list op) : bool :=
-  existsb (fun o => match o with ODuring _ inner => raw_then_more inner | _ => false end) ops.
-
 Definition judge_seq f n try scr ops observed : verdict :=
   let e := mkEnv f try scr in
   let holds := history_ok e n ops observed in
-  let spec := run true e n ops in
-  let impl := run false e n ops in
-  if obss_eqb observed spec then (if holds then VOk else VMismatch)
-  else if trigger2 ops && obss_eqb observed impl then VKnown 2
+  if obss_eqb observed (impl_run e n ops) then (if holds then VOk else VMismatch)
   else if holds then VMismatch
   else VViolation.
 
@@ -82,7 +67,6 @@ Definition judge_con f calls final : verdict :=
   let e := mkEnv f [0] [] in
   let h := history_of calls final in
   if check_history (lin_step e) lres_eqb (S (length h)) start_state h then VOk
-  else if two_started_overlap calls then VKnown 1
   else VViolation.
 
 Definition judge (c : case) : verdict :=
